@@ -8,6 +8,7 @@ cache=${VERIF_CACHE:-/var/tmp/simbody-verif}
 out=$cache/verify/${tier}_s$seed; mkdir -p "$out"
 props=("$@"); [ ${#props[@]} -eq 0 ] && props=($(python3 -c "import json;print(' '.join(json.load(open('tools/claimed.json'))))"))
 [ "$seed" != 1 ] && export VERIF_EVIDENCE_DIR=$cache/evidence_s$seed
+[ "$tier" = thorough ] && export VERIF_EVIDENCE_DIR=$cache/evidence_thorough
 export VERIF_SEED=$seed
 run1() { p=$1; s=$(date +%s); bin/check $p --tier $tier > $out/$p.log 2>&1; rc=$?; e=$(date +%s)
   echo "$p rc=$rc $((e-s))s $(grep -cE '^KNOWN-FINDING' $out/$p.log) known; $(grep -E '^(VIOLATION|OK|ERROR)' $out/$p.log | head -2 | tr '\n' ' ' | cut -c1-160)"; }
